@@ -92,6 +92,15 @@ func judge(input []byte) (kind, msg, class string) {
 			}
 			return "", "", perr.Class
 		}
+		// the reference stops at the first thing it cannot read (e.g. "bad number tail"); an input that, read token by
+		// token, has a raw control character, a string that never ends or more opening than closing brackets is one
+		// "with raw control characters / unterminated strings or structures" all the same
+		if lc := lexicalDefect(input); lc != "" && utf8.Valid(input) {
+			if err == nil {
+				return "C07/accepted-" + lc, fmt.Sprintf("input with %s (found token by token; the reference parser says: %s) was accepted: %s -> %s", lc, perr.Msg, show(input), show(out)), lc
+			}
+			return "", "", lc
+		}
 		return "", "", "unclassified"
 	}
 	want, cerr := refjcs.Canonical(v)
@@ -122,6 +131,41 @@ func judge(input []byte) (kind, msg, class string) {
 		return "C07/value-changed", fmt.Sprintf("encoding/json reads different values from input and output: %s -> %s", show(input), show(out)), "ok"
 	}
 	return "", "", "ok"
+}
+
+// lexicalDefect scans the input token by token without regard to the grammar: a control character (outside strings
+// other than tab, line feed and carriage return), a string literal that runs into the end of the input, or brackets
+// that are still open at the end.
+func lexicalDefect(b []byte) string {
+	depth, inString := 0, false
+	for i := 0; i < len(b); i++ {
+		c := b[i]
+		if inString {
+			switch {
+			case c < 0x20:
+				return refjcs.ErrControl
+			case c == '\\':
+				i++
+			case c == '"':
+				inString = false
+			}
+			continue
+		}
+		switch {
+		case c == '"':
+			inString = true
+		case c == '[' || c == '{':
+			depth++
+		case c == ']' || c == '}':
+			depth--
+		case c < 0x20 && c != '\t' && c != '\n' && c != '\r':
+			return refjcs.ErrControl
+		}
+	}
+	if inString || depth > 0 {
+		return refjcs.ErrUnterminated
+	}
+	return ""
 }
 
 // hasLongNumber reports a run of more than 300 characters from the number alphabet.
@@ -413,7 +457,7 @@ func TestMalformedInputs(t *testing.T) {
 		v := gen.JSONTop(t, rapid.IntRange(1, 4).Draw(t, "depth"))
 		ch := gen.RapidChooser{T: t, Label: "spell"}
 		base := refjcs.Spell(v, ch, refjcs.AllSpell)
-		defect := rapid.SampledFrom([]string{"duplicate", "truncate", "escape", "surrogate", "control", "trailing"}).Draw(t, "defect")
+		defect := rapid.SampledFrom([]string{"duplicate", "truncate", "escape", "surrogate", "control", "trailing", "long-token"}).Draw(t, "defect")
 		var in []byte
 		// positions inside string literals of base (after the opening quote)
 		strPos := stringInteriors(base)
@@ -429,6 +473,15 @@ func TestMalformedInputs(t *testing.T) {
 			in = refjcs.Spell(obj, ch, refjcs.SpellOpts{Whitespace: true, Escapes: true, Numbers: true})
 		case "truncate":
 			in = base[:rapid.IntRange(0, len(base)-1).Draw(t, "cut")]
+		case "long-token":
+			// the defect sits inside an unquoted token of more than 700 characters (the length from which the library
+			// evaluates number literals itself) that ends like a number with an exponent far outside the double range
+			garbage := rapid.SampledFrom([]string{"1\"bc", "1[[[{{{", "1\x00\x01", "1\x1f", "7\"", "2[", "3{\"k\":", "-\"x", "1e5\"", "0.5[[", "1\x7f\x02"}).Draw(t, "garbage")
+			pad := strings.Repeat(rapid.SampledFrom([]string{"0", "9", "12"}).Draw(t, "padDigit"), rapid.IntRange(400, 1500).Draw(t, "padLen"))
+			exp := rapid.SampledFrom([]string{"e-9999", "E-100000", "e-2000000", "e-1900", "e+9999", "E99999", "e-0", ""}).Draw(t, "exponent")
+			tok := garbage + pad + exp
+			in = []byte(rapid.SampledFrom([]string{"[%s]", "{\"a\":%s}", "[1,%s]", "{\"a\":[true,%s]}", " [ %s ] "}).Draw(t, "frame"))
+			in = []byte(strings.Replace(string(in), "%s", tok, 1))
 		case "trailing":
 			in = append(append([]byte{}, bytes.TrimRight(base, " \t\r\n")...), []byte(rapid.SampledFrom([]string{"x", "{}", ",", "]", "1", "}", "null", " []", "\n\"a\"", "\u0000",
 				// characters Unicode counts as space but JSON does not
